@@ -73,4 +73,12 @@ theorem wM_swap (n1 n2 n : ℚ) : wM n2 n1 n = -wM n1 n2 n := by
   unfold wM Soft64.fdiv
   rw [fsub_antisymm n1 n2, ← Soft64.fl64_neg]; congr 1; ring
 
+theorem getD_map_mul (l : List ℝ) (c : ℝ) (i : ℕ) : (l.map (fun x => x * c)).getD i 0 = l.getD i 0 * c := by
+  induction l generalizing i with
+  | nil => simp
+  | cons a l ih =>
+    cases i with
+    | zero => simp
+    | succ i => simpa using ih i
+
 end PairedTests
